@@ -97,8 +97,19 @@ def _method(draw: st.DrawFn, idx: int) -> dict[str, Any]:
         m["steps"] = draw(st.lists(st.fixed_dictionaries({"logs": programs._logs(1), "action": step}), min_size=1, max_size=6))
     else:
         m["in_cols"] = draw(_cols(allow_empty=False))
+        passthrough = len(m["in_cols"]) >= 2 and draw(st.sampled_from([0, 1, 2])) == 1
+        if passthrough:
+            # the output is the input's own columns in another order (zero-copy select on the server side), so an
+            # output batch shares buffers with the shm-resident input it was computed from
+            m["out_cols"] = list(reversed(m["in_cols"]))
         resp = st.integers(0, 11).flatmap(
-            lambda k: programs._raise_action if k == 5 else st.just({"op": "echo_len"}) if k in (3, 8) else _emit(m["out_cols"], False)
+            lambda k: programs._raise_action
+            if k == 5
+            else st.just({"op": "echo_len"})
+            if k in (3, 8)
+            else st.just({"op": "echo_input"})
+            if passthrough and k in (0, 1, 2, 6, 7, 9)
+            else _emit(m["out_cols"], False)
         )
         m["responses"] = draw(st.lists(st.fixed_dictionaries({"logs": programs._logs(1), "action": resp}), min_size=0, max_size=5))
     return m
